@@ -27,7 +27,7 @@ import (
 )
 
 var c16Versions = map[string]string{"v2025": "2025-03-26", "v2024": "2024-11-05", "older": "2023-06-01", "future": "2099-12-31",
-	"empty": "", "garbage": "not-a-version/\u2028\n", "long": strings.Repeat("9", 5000), "padded": " 2024-11-05\n"}
+	"empty": "", "garbage": "not-a-version/\u2028\n", "long": strings.Repeat("9", 5000), "padded": " 2024-11-05\n", "between": "2024-12-01"}
 
 type c16SStep struct {
 	Op    string `json:"op"` // regprompt regresource init
